@@ -233,6 +233,8 @@ let () =
       (match commit_index l with
        | Some v -> Printf.printf "%s\tq=%s commit=%s\n" id (d q) (d v)
        | None -> Printf.printf "%s\tpanic\n" id)
+    | id :: "MT" :: t :: _ ->
+      Printf.printf "%s\tresponse=%b\n" id (is_response_msg (n_of_dec_big t))
     | id :: "AC" :: snap :: cs :: _ ->
       (* Ready.appliedCursor: committed entry indexes (or "-") and the snapshot index *)
       let ents = if cs = "-" then [] else
